@@ -80,7 +80,7 @@ class C10(MsgProp):
                     else:
                         Cn = list(reversed(full))
                     cases.append((list(Sn), list(Gn), Cn, "order:" + order))
-            for inv in ("sat0", "sat65", "cellsat0", "cellsat0", "badsig", "badsig", "badsig", "badsig", "dupsat", "dupcell", "dupcell64", "dupcell64", "dupcell65", "gridx4", "mismatch-extra-sat", "mismatch-extra-cell", "cells65",
+            for inv in ("sat0", "sat65", "cellsat0", "cellsat0", "badsig", "badsig", "badsig", "badsig", "dupsat", "dupcell", "dupcell64", "dupcell64", "dupcell65", "gridx4", "mismatch-extra-sat", "mismatch-extra-cell", "mismatch-swap", "mismatch-swap", "cells65",
                         "only-sats", "only-cells"):
                 cases.append((None, None, None, inv))
             for S, G, C, inv in cases:
@@ -149,7 +149,7 @@ class C10(MsgProp):
     EXPECTED = {"sat0": "InvalidSatelliteId", "sat65": "InvalidSatelliteId", "cellsat0": "InvalidSatelliteId", "badsig": "InvalidSignalId",
                 "dupsat": "DuplicateSatellite", "dupcell": "DuplicateSatelliteSignal", "dupcell64": "DuplicateSatelliteSignal",
                 "dupcell65": None, "gridx4": "DuplicateSatelliteSignal",
-                "mismatch-extra-sat": "SatelliteMismatch", "mismatch-extra-cell": "SatelliteMismatch",
+                "mismatch-extra-sat": "SatelliteMismatch", "mismatch-extra-cell": "SatelliteMismatch", "mismatch-swap": "SatelliteMismatch",
                 "cells65": "InvalidSatelliteSignalCount", "only-sats": "SatelliteMismatch", "only-cells": "SatelliteMismatch"}
 
     def run(self, ctx):
@@ -416,6 +416,20 @@ class C20(MsgProp):
         for n in g.numbers:
             for _ in range(2 if ctx.tier == "quick" else 20):
                 yield ("SERDEFRAME " + hx(mk_frame(hostile_payload(r, n, r.choice([40, 200, 600]), "random"))), "decoded", True)
+        # messages decoded from frames the encoder would never produce but the decoder accepts: encoder output with a
+        # changed bit / byte (checksum recomputed), MSM frames whose cell mask leaves satellites or signals without cells
+        encs = ["ENC " + g.message(r, n, r.choice(["valid", "safe"])) for n in g.numbers for _ in range(2 if ctx.tier == "quick" else 6)]
+        for a in ctx.run_all([ctx.exe_release], encs, 20.0):
+            if a and " " not in a and all(ch in "0123456789abcdef" for ch in a):
+                for v in mutate_frame(r, bytes.fromhex(a))[:2]:
+                    yield ("SERDEFRAME " + hx(v), "decoded-mutated-encoder-output", True)
+        from props.l5 import msm_payload_bits
+        for n in [x for x in g.numbers if 1071 <= x <= 1137]:
+            for (ns, ng) in [(2, 2), (3, 1), (8, 8), (4, 3)]:
+                nc = ns * ng
+                for cm in (1, 1 << (nc - 1), (1 << nc) - 1, 3, (1 << nc) - 2):
+                    p = msm_payload_bits(r, n, r.sample(range(64), ns), r.sample(range(1, 32), ng), cellmask=(cm, nc))
+                    yield ("SERDEFRAME " + hx(mk_frame(p)), "decoded-msm-sparse-cells", True)
 
     def run(self, ctx):
         # SERDEMSG / SERDEFRAME have no model counterpart (derive + format are not modelled): oracle only
